@@ -488,6 +488,10 @@ class AwareASTNode(DataClassSerializeMixin):
 
             c._set_parent(self, f, i)
 
+        # A detached node is not updated when its (former) children change,
+        # so its content id may be outdated by now
+        self._set_content_id()
+
         # Now we can safely attach this node to the registry
         AwareASTNode._nodes[self.id] = self
 
